@@ -398,20 +398,33 @@ def check(model, rep):
         if not sts:
             rep.ob('R15.6', pini, 'self.position bound on every path', False, 'a path through PathNode.__init__ leaves self.position unset', shape=True)
             continue
-        val = sts[-1][3]
         n_st += 1
-        none_path = any(k.replace(' ', '') in ('%sisNone' % ppos, '%s==None' % ppos) and v for k, v in pth.facts.items())
-        if val in same_forms or (val == 'None' and none_path):
-            rep.ob('R15.6', pini, 'self.position = the given position', True, val, line=sts[-1][2])
-        elif val in ('tm(%s)' % ppos, 'tm(%s.copy())' % ppos, 'tm(%s).copy()' % ppos):
-            sized = any(('len(%s)' % ppos) in k or (ppos + '.shape') in k or (ppos + '.size') in k or ('np.shape(%s)' % ppos) in k for k in pth.facts)
-            rep.ob('R15.6', pini, 'self.position = the given position', False,
-                   'for an argument that is not a tm the node stores %s: the general constructor reads a 3-sequence as a ROTATION (and a 3x1 likewise), so a node '
-                   'given the point [x, y, z] - which the separating-axis test, the distance function and the 3-d tree all read by components 0..2 - lands at the '
-                   'origin and every obstruction query about it answers for another segment' % val, shape=sized, line=sts[-1][2])
-        else:
-            rep.ob('R15.6', pini, 'self.position = the given position', False, 'self.position is bound to %s, not to the argument or a copy of it' % val[:80],
-                   shape=True, line=sts[-1][2])
+        # a conditional expression stores one of its arms: each arm is judged under its own condition
+        def _arms(txt, facts):
+            try:
+                e_ = ast.parse(txt, mode='eval').body
+            except SyntaxError:
+                return [(txt, facts)]
+            if isinstance(e_, ast.IfExp):
+                t_ = ast.unparse(e_.test)
+                return _arms(ast.unparse(e_.body), dict(facts, **{t_: True})) + _arms(ast.unparse(e_.orelse), dict(facts, **{t_: False}))
+            return [(txt, facts)]
+        for val, facts_ in _arms(sts[-1][3], dict(pth.facts)):
+          val = val.replace(' ', '') if val.replace(' ', '') in same_forms | {'None'} or val.replace(' ', '').startswith('tm(') else val
+          none_path = any((k.replace(' ', '') in ('%sisNone' % ppos, '%s==None' % ppos) and v) or
+                          (k.replace(' ', '') in ('%sisnotNone' % ppos, '%s!=None' % ppos) and v is False) for k, v in facts_.items())
+          pth_facts = facts_
+          if val in same_forms or (val == 'None' and none_path):
+              rep.ob('R15.6', pini, 'self.position = the given position', True, val, line=sts[-1][2])
+          elif val in ('tm(%s)' % ppos, 'tm(%s.copy())' % ppos, 'tm(%s).copy()' % ppos):
+              sized = any(('len(%s)' % ppos) in k or (ppos + '.shape') in k or (ppos + '.size') in k or ('np.shape(%s)' % ppos) in k for k in pth_facts)
+              rep.ob('R15.6', pini, 'self.position = the given position', False,
+                     'for an argument that is not a tm the node stores %s: the general constructor reads a 3-sequence as a ROTATION (and a 3x1 likewise), so a node '
+                     'given the point [x, y, z] - which the separating-axis test, the distance function and the 3-d tree all read by components 0..2 - lands at the '
+                     'origin and every obstruction query about it answers for another segment' % val, shape=sized, line=sts[-1][2])
+          else:
+              rep.ob('R15.6', pini, 'self.position = the given position', False, 'self.position is bound to %s, not to the argument or a copy of it' % val[:80],
+                     shape=True, line=sts[-1][2])
     rep.floor('R15.6', 'paths of PathNode.__init__ binding the position', n_st, 1)
     gp = pn.methods.get('getPosition')
     if gp is not None:
